@@ -92,7 +92,36 @@ class DF:
             return (self.nrows(), len(self.columns))
         if name == 'empty':
             return self.nrows() == 0 or not self.columns
-        if name in ('sort_values', 'sort_index', 'reset_index', 'reindex', 'sample', 'drop_duplicates', 'dropna'):
+        if name in ('sort_values', 'sort_index'):
+            def sort(it, a, k, n, _name=name):
+                """rows reordered (stable) by a column / the index with concrete values; NaN / NaT last; the row labels travel with the rows"""
+                if k.get('inplace') or k.get('key') is not None or k.get('axis', 0) not in (0, 'index'):
+                    raise AnalysisError(f'DataFrame.{_name} with inplace / key / axis=1 not modelled', n)
+                if _name == 'sort_values':
+                    by = a[0] if a else k.get('by')
+                    if isinstance(by, list):
+                        if len(by) != 1:
+                            raise AnalysisError('sort_values by several columns not modelled', n)
+                        by = by[0]
+                    if by not in self.columns:
+                        raise AbsRaise(ExcVal('KeyError', (by,)), n)
+                    keys = [e.d for e in self.columns[by].els()]
+                else:
+                    keys = [e.d for e in self.index.els()]
+                if not all(X.is_num(d) or d == X.NAN for d in keys):
+                    raise AnalysisError(f'DataFrame.{_name} on symbolic values', n)
+                asc = k.get('ascending', True)
+                good = [i for i, d in enumerate(keys) if d != X.NAN]
+                bad = [i for i, d in enumerate(keys) if d == X.NAN]
+                good.sort(key=lambda i: keys[i][1], reverse=not asc)
+                pos = (bad + good) if k.get('na_position') == 'first' else (good + bad)
+                cols = collections.OrderedDict((c, v.like([v.el(p) for p in pos])) for c, v in self.columns.items())
+                idx = self.index.like([self.index.el(p) for p in pos])
+                if k.get('ignore_index'):
+                    idx = Vec.fresh([El(X.num(i), False) for i in range(len(pos))], kind='index', dtype='i8')
+                return DF(cols, idx)
+            return PyCallable(sort, name)
+        if name in ('reset_index', 'reindex', 'sample', 'drop_duplicates', 'dropna'):
             return PyCallable(lambda it, a, k, n: (_ for _ in ()).throw(AnalysisError(f'DataFrame.{name} (row reordering / reindexing) not modelled', n)), name)
         if name in self.columns and name.isidentifier():
             return self.series(name)
